@@ -16,6 +16,7 @@ assignments carry "inl_call": g.path and the synthetic Fn lists inlined
 callees in d["inlined"].  Closures are not inlined (they are reached through
 trait calls; rules that need them use Program.family)."""
 import copy
+import re
 
 from mir import Fn, callee_of
 
@@ -51,6 +52,9 @@ def module_of(g):
     par = g.parent or ""
     if (g.d.get("parent_kind") or "").startswith("Mod"):
         return par
+    if par.startswith("<") and " as " in par:
+        par = par[1:].split(" as ")[0]          # `<Type as Trait>`: the Self type's module
+    par = re.sub(r"<.*$", "", par)              # strip generic arguments
     return par.rsplit("::", 1)[0] if "::" in par else par
 
 
